@@ -286,6 +286,10 @@ def execute(case, ctx):
             missing = [v for v in range(world["n"]) if v not in cols]
             if not rows or not missing or len(cols) == 0:
                 continue
+            if any(names.S(v, s) is None for r in rows for v, s in zip(cols, r)):
+                # a state named None cannot be told from a missing cell inside a pandas frame: outside the property
+                ctx.probe("predict_proba_skipped_none_state_in_frame")
+                continue
             df = pd.DataFrame([[names.S(v, s) for v, s in zip(cols, r)] for r in rows], columns=[names.L(v) for v in cols],
                               dtype=object)
             ctx.event("predict_proba", cols, rows)
